@@ -24,7 +24,7 @@ FLOORS = {
               'trans:blank->number': 10, 'write_before_dependant_built': 20,
               'cfg:mem': 20, 'cfg:xlsx': 20, 'cfg:yml': 5, 'cfg:json': 5, 'cfg:pkl': 5,
               'dependant_compares_after_write': 1000, 'failed_builds': 15, 'formula_cells_overwritten_after_a_failed_build': 15,
-              'real_book_histories': 25,
+              'real_book_histories': 25, 'big_workbook_histories': 3,
               'real_value_compares': 350},
     'thorough': {'histories': 3000, 'compares': 100000, 'trans:0->FALSE': 50, 'trans:1->TRUE': 50,
                  'trans:number->blank': 300, 'trans:blank->number': 200,
@@ -444,7 +444,36 @@ def used_area_growth(ctx):
         ctx.count('directed:used_area_growth')
 
 
+def big_history(ctx, rng, config):
+    """one history on a workbook of the sizes the small generator never reaches (vp.wbgen.big): writes to the head of
+    a 90-140 cell chain, into a 1000 cell block beyond column Z, to the keys of a 300-600 row table, on a dozen
+    sheets, to long texts and big integers; after each write three dependants are read (and, in eager histories, every
+    dependant that is built), at the end every cell"""
+    spec, meta = wbgen.big(rng)
+    fm = meta['formulas']
+    formulas = sorted(fm)
+    chain = sorted((a for a in formulas if a.startswith('Sheet1!H')), key=lambda a: int(a.rsplit('H', 1)[1]))
+    ops = [['eval', chain[-1]]] + [['eval', a] for a in rng.sample(formulas, 8)]
+    plain = [a for a in meta['inputs']]
+    special = ['Sheet1!H1', 'Sheet1!A410', 'Sheet1!A411', 'Sheet1!F430', 'Sheet1!G440', 'Sheet1!G442'] + \
+        [a for a in plain if a.endswith('!A1') and a.startswith('S')]
+    for k in range(12):
+        a = rng.choice(special) if k % 2 == 0 else rng.choice(plain)
+        if k % 5 == 4 and config != 'xlsx':
+            ops.append(['reload', rng.choice(['yml', 'json', 'pkl'])])
+        ops.append(['eval', a])          # (set_value needs the cell in the cell map)
+        ops.append(['set', a, rng.choice([k + 2, -3, 17, 0, 3 * k + 1, 2 ** 40 + k])])
+        deps = sorted(wbgen.dependants(meta, a))
+        for d in rng.sample(deps, min(3, len(deps))):
+            ops.append(['eval', d])
+    ctx.count('big_workbook_histories')
+    ctx.count('big_workbook_cells', len(meta['order']))
+    return one_history(ctx, spec, meta, config, k % 2 == 0, ops=ops)
+
+
 def run(ctx):
+    if ctx.shard % 4 == 2 or not ctx.quick:
+        big_history(ctx, ctx.rng, CONFIGS[(ctx.shard // 4 + ctx.seed) % len(CONFIGS)])
     if ctx.shard == ctx.nshards - 1:
         # the repository's own test-suite as one more workload under the monitors (vp.suitemon)
         from vp import suiteload
